@@ -9,7 +9,7 @@
  *   end
  * output (file named by VERIF_COLLOUT, one write() per line, O_APPEND):
  *   R <id> <rank> <rc> <len> v...     receive buffer of <rank> after case <id> (rc = return code of the collective)
- *   B <id> <rank> <enter_ns> <leave_ns>   barrier: simulated dates of entry and exit
+ *   B <id> <rank> <enter_us> <leave_us>   barrier: simulated dates of entry and exit, microseconds
  *   D <rank>                      rank executed every case
  */
 #include <mpi.h>
@@ -140,8 +140,11 @@ int main(int argc, char** argv)
       rcode     = MPI_Barrier(comm);
       double t1 = MPI_Wtime();
       std::ostringstream o;
-      o << "B " << c.id << " " << rank << " " << static_cast<long long>(t0 * 1e9 + 0.5) << " "
-        << static_cast<long long>(t1 * 1e9 + 0.5) << "\n";
+      // microseconds, entry rounded up and exit rounded down: never in favour of the implementation
+      long long e_us = static_cast<long long>(t0 * 1e6);
+      if (static_cast<double>(e_us) < t0 * 1e6)
+        e_us++;
+      o << "B " << c.id << " " << rank << " " << e_us << " " << static_cast<long long>(t1 * 1e6) << "\n";
       olog(o.str());
     } else if (n == "bcast") {
       rbuf = sbuf; // in/out buffer
